@@ -98,6 +98,24 @@ CHECKS = {
     technique="Lean 4 theorems (interval preimages, constant Jacobian, involution) + statistical tests with exact binomial bounds; draw-replay correspondence",
     design="3/C17",
     note="'a.e.-bijection with constant Jacobian maps the uniform law to the uniform law' is cited, not formalised."),
+ "C01": dict(
+    text="Proof: the table has sum(num) rows, every row has one cell per column, each group contributes exactly its count, the output "
+         "rows are a permutation of the concatenated zero-filled group rows (for any sort) and are ordered by the date key, a cell under "
+         "a column a group does not define is 0, cell (i, c) of a group's row is that group's value f[c][i] (row integrity), header = "
+         "requested columns or the union in order of first appearance; Python dict-merge column order (date, longitude, latitude, "
+         "depth, attributes). Tie: the real make_release against the model fed with the group pieces produced by the real generators "
+         "under the same draw stream (equal-date runs compared as multisets); independent marker/tag oracle.",
+    technique="Lean 4 theorems (List.Perm, sortedness of insertion sort, dict-merge order) on a table model; differential correspondence",
+    design="3/C01"),
+ "C18": dict(
+    text="Proof: container normalisation (flat = grouped with the global keys split off, list = grouped without globals), validation "
+         "accepts iff every group has date, location and num and otherwise reports exactly the missing keys per offending group, table "
+         "is a function of (groups, draws, columns). Partial: YAML parsing, to_csv formatting and the command line are not in the model; "
+         "they are exercised on the implementation (five ways of supplying the same spec give identical tables, seeded runs repeat, the "
+         "written file parses back exactly with Python float).",
+    technique="Lean 4 theorems (normalisation and validation decision logic); metamorphic + differential checks on the implementation",
+    design="3/C18",
+    note="YAML/CSV/CLI layers are covered by the correspondence layer only."),
 }
 
 def main():
